@@ -29,7 +29,7 @@ var documentedTypes = map[errors.ErrorType]bool{
 	errors.IPv6InvalidCompression: true, errors.IPv6TooManyPieces: true, errors.IPv6MultipleCompression: true, errors.IPv6InvalidCodePoint: true,
 	errors.IPv6TooFewPieces: true, errors.IPv4InIPv6TooManyPieces: true, errors.IPv4InIPv6InvalidCodePoint: true, errors.IPv4InIPv6OutOfRangePart: true,
 	errors.IPv4InIPv6TooFewParts: true,
-	errors.InvalidURLUnit: true, errors.SpecialSchemeMissingFollowingSolidus: true, errors.MissingSchemeNonRelativeURL: true, errors.InvalidReverseSolidus: true,
+	errors.InvalidURLUnit:        true, errors.SpecialSchemeMissingFollowingSolidus: true, errors.MissingSchemeNonRelativeURL: true, errors.InvalidReverseSolidus: true,
 	errors.InvalidCredentials: true, errors.HostMissing: true, errors.PortMissing: true, errors.PortOutOfRange: true, errors.PortInvalid: true,
 	errors.FileInvalidWindowsDriveLetter: true, errors.FileInvalidWindowsDriveLetterHost: true,
 }
